@@ -72,15 +72,21 @@ def finish : J → J → Option J
   | .obj kvs, _ => some (.obj kvs)
   | _, _ => none
 
-/-- `append` until the list has `n` entries -/
-def padTo (l : List J) (n : Nat) : List J := l ++ List.replicate (n - l.length) (.obj [])
+/-- `executorExtractValue` at a list point: pad the list with `{}` up to index `i`, then continue in entry `i`
+    (written as one recursion: entry `i` of the padded list is replaced by what `f` makes of it) -/
+def updAt : List J → Nat → (J → Option J) → Option (List J)
+  | [], 0, f => (f (.obj [])).map fun e => [e]
+  | [], i + 1, f => (updAt [] i f).map fun r => .obj [] :: r
+  | x :: xs, 0, f => (f x).map fun e => e :: xs
+  | x :: xs, i + 1, f => (updAt xs i f).map fun r => x :: r
 
 /-- what `executorExtractValue` finds or creates under a non-list point -/
-def childOf (kvs : KVs) (f : Nat) : J :=
-  match lookup f kvs with
+def childOfCur : Option J → J
   | none => .obj []
   | some .null => .obj []
   | some c => c
+
+def childOf (kvs : KVs) (f : Nat) : J := childOfCur (lookup f kvs)
 
 def insertAt : J → List Pt → J → Option J
   | x, [], v => finish x v
@@ -88,12 +94,8 @@ def insertAt : J → List Pt → J → Option J
     (insertAt (childOf kvs f) rest v).map fun c => .obj (put f c kvs)
   | .obj kvs, ⟨f, some i⟩ :: rest, v =>
     match lookup f kvs with
-    | none =>
-      let l := padTo [] (i + 1)
-      (insertAt (l.getD i .null) rest v).map fun e => .obj (put f (.arr (l.set i e)) kvs)
-    | some (.arr l0) =>
-      let l := padTo l0 (i + 1)
-      (insertAt (l.getD i .null) rest v).map fun e => .obj (put f (.arr (l.set i e)) kvs)
+    | none => (updAt [] i fun e => insertAt e rest v).map fun l => .obj (put f (.arr l) kvs)
+    | some (.arr l0) => (updAt l0 i fun e => insertAt e rest v).map fun l => .obj (put f (.arr l) kvs)
     | some _ => none
   | _, _ :: _, _ => none
 
